@@ -25,15 +25,16 @@ func loopN(ctr string, n int64, body ...*gen.Node) []*gen.Node {
 }
 
 func probeCases() map[string]Case {
-	m := map[string]Case{}
-	// C02-F09  &j6 = 2d(7) ; j6   (the blank before ';' is what matters: noise value 7 prints " " at the
-	// whitespace slot in front of the separator)
+	return map[string]Case{} // no open finding at present
+}
+
+// diceTailCase: &j6 = 2d(+7) ; j6 — noise [0 0 7] prints the blank in front of the separator that matters.
+func diceTailCase() Case {
 	c := one(gen.Prog(&gen.Node{K: "setc", S: "j6", Kids: []*gen.Node{
 		{K: "dice", Kids: []*gen.Node{gen.Int(2), gen.N("pos", gen.Int(7)), gen.None(), gen.None(), gen.None()}}}}, gen.Var("j6")))
 	c.Steps[0].Noise = []int{0, 0, 7}
 	c.Steps[0].Src, _ = gen.PrintNoisy(c.Steps[0].Prog, &gen.Noise{Vals: c.Steps[0].Noise})
-	m["findings/C02-F09.json"] = c
-	return m
+	return c
 }
 
 // replayCases: regression cases of defects already repaired in /repo (they must pass) and a few guide programs.
@@ -105,6 +106,9 @@ func replayCases() map[string]Case {
 			gen.N("setslice", v("x"), i(0), i(1), gen.N("arr", i(9))),
 			&gen.Node{K: "setthis", S: "u", Kids: []*gen.Node{i(4)}},
 			v("x"), v("u"))))
+	// &j6 = 2d(+7) ; j6  — detail span of a trailing dice term reached behind the trimmed text of a computed
+	// value (was C02-F09, repaired in /repo c83230d)
+	m["replays/C02/computed-dice-trailing-blank.json"] = diceTailCase()
 	// GUIDE: variables of a function live in their own space → [10, 2]
 	m["replays/C02/guide-function-scope.json"] = one(gen.Prog(gen.Set("x", i(2)),
 		&gen.Node{K: "func", S: "g1", Kids: []*gen.Node{gen.Block(gen.Set("x", i(10)), gen.N("ret", v("x")))}},
